@@ -204,20 +204,18 @@ def persistP (msg : Bytes) (h : Handle) (dir : Dir) : Prog Res :=
 
 def setSeqNumP (h : Handle) (out inn : Option Int) : Prog Res :=
   if out.any (· ≤ 0) then .ret (.set h (some .assertion))
+  else if inn.any (· ≤ 0) then .ret (.set { h with nextOut := effOut h out } (some .assertion))
   else
-    let h1 := match out with | some o => { h with nextOut := o } | none => h
-    if inn.any (· ≤ 0) then .ret (.set h1 (some .assertion))
-    else
-      let h2 := match inn with | some i => { h1 with nextIn := i } | none => h1
-      .exec (.updateBoth (h2.nextIn - 1) (h2.nextOut - 1) h.key) fun
-        | .done =>
-          .exec (.deleteFrom h.key h2.nextIn .inbound) fun
-            | .done =>
-              .exec (.deleteFrom h.key h2.nextOut .outbound) fun
-                | .done => .commit (.ret (.set h2 none))
-                | r => .ret (.set h2 (some (excOf r)))
-            | r => .ret (.set h2 (some (excOf r)))
-        | r => .ret (.set h2 (some (excOf r)))
+    let h2 : Handle := { h with nextOut := effOut h out, nextIn := effIn h inn }
+    .exec (.updateBoth (effIn h inn - 1) (effOut h out - 1) h.key) fun
+      | .done =>
+        .exec (.deleteFrom h.key (effIn h inn) .inbound) fun
+          | .done =>
+            .exec (.deleteFrom h.key (effOut h out) .outbound) fun
+              | .done => .commit (.ret (.set h2 none))
+              | r => .ret (.set h2 (some (excOf r)))
+          | r => .ret (.set h2 (some (excOf r)))
+      | r => .ret (.set h2 (some (excOf r)))
 
 def recoverP (h : Handle) (dir : Dir) (lo hi : Bound) : Prog Res :=
   .exec (.selectRange h.key dir lo hi) fun
